@@ -29,7 +29,35 @@ def asan_run(pkg, mode, tier, shards, extra_args=None, timeout=7200):
     return r
 
 
-def engine_part(name, pkg, mode, shards_quick=1, shards_thorough=NCPU, release_in_thorough=True, thorough_only=False, timeout=7200, asan=None, asan_args=None):
+def miri_target():
+    import vdriver
+    return os.path.join(vdriver.BASE, 'target_miri')
+
+
+MIRI_ENV = {'MIRIFLAGS': '-Zmiri-disable-isolation -Zmiri-ignore-leaks', 'CARGO_NET_OFFLINE': 'true'}
+
+
+def miri_cmd(pkg):
+    return ['cargo', '+nightly', 'miri', 'run', '-q', '--offline', '-p', pkg, '--']
+
+
+def miri_run(pkg, mode, shards, extra_args=None, timeout=6 * 3600):
+    """Miri substrate (thorough tiers): the same enumeration, interpreted by Miri with Stacked Borrows, as a per-execution
+    UB monitor (out-of-bounds, uninitialised reads, invalid values, aliasing). Reduced bounds where noted in the rule."""
+    env = dict(MIRI_ENV, CARGO_TARGET_DIR=miri_target())
+    # one sequential invocation first so that the parallel shards find everything built
+    from vdriver import HARNESS, env_base, sh
+    e = env_base(); e.update(env)
+    p = sh(['cargo', '+nightly', 'miri', 'run', '-q', '--offline', '-p', pkg, '--', '--mode', mode, '--tier', 'quick', '--only', 'no-such-case'], cwd=HARNESS, env=e)
+    if p.returncode not in (0, 2):
+        raise Machinery(f'miri build/run of {pkg} failed: {p.stderr[-2000:]}')
+    r = run_engine(miri_cmd(pkg), mode, 'quick', shards=shards, env=env, timeout=timeout, extra_args=extra_args, label='miri')
+    for v in r['violations']:
+        v['substrate'] = 'miri'
+    return r
+
+
+def engine_part(name, pkg, mode, shards_quick=1, shards_thorough=NCPU, release_in_thorough=True, thorough_only=False, timeout=7200, asan=None, asan_args=None, miri=False, miri_args=None):
     """asan: None | 'quick' (AddressSanitizer substrate in both tiers, at the quick bounds) | 'thorough' (thorough tier only)"""
     def run(part, tier):
         cargo_build(pkg, 'dev')
@@ -50,11 +78,22 @@ def engine_part(name, pkg, mode, shards_quick=1, shards_thorough=NCPU, release_i
             r3 = asan_run(pkg, mode, 'quick', max(shards_quick, 4), extra_args=asan_args, timeout=timeout)
             res['violations'] += r3['violations']
             subs['asan(nightly,-Zsanitizer=address)'] = {'evaluations': r3['result'].get('evaluations'), 'violations': len(r3['violations'])}
+        if miri and tier == 'thorough':
+            r4 = miri_run(pkg, mode, NCPU, extra_args=miri_args)
+            res['violations'] += r4['violations']
+            subs['miri(nightly, stacked borrows)'] = {'evaluations': r4['result'].get('evaluations'), 'violations': len(r4['violations']), 'args': miri_args}
         res['substrates'] = subs
         return res
 
     def replay(part, body):
         sub = body.get('substrate', 'dev')
+        if sub == 'miri':
+            env = dict(MIRI_ENV, CARGO_TARGET_DIR=miri_target())
+            rc, out, err = run_engine_once(miri_cmd(pkg), ['--mode', mode, '--tier', 'thorough', '--only', body['desc']], env, 3600)
+            viols, result, _ = parse_engine_output(out)
+            if rc not in (0, 2) or result is None:
+                return [{'desc': body['desc'], 'what': f'miri reports: {err[-600:]}'}]
+            return viols
         if sub == 'asan':
             cargo_build(pkg, 'dev', toolchain='nightly', extra_env=ASAN_ENV, target_dir=asan_target(), extra_args=['--target', ASAN_TRIPLE])
             binary, env = bin_path(pkg, 'dev', asan_target(), ASAN_TRIPLE), ASAN_RUN_ENV
@@ -221,7 +260,7 @@ PROPS['C08'] = {
 PROPS['C09'] = {
     'level': 'exploration',
     'technique': 'bounded exhaustive enumeration of (N, K, M, index, element size) for the sequence operations on the real code against the corresponding Vec operations, with ledger and address oracles',
-    'parts': [engine_part('sequence-ops', 'e_seq', 'C09', shards_quick=2, asan='quick')],
+    'parts': [engine_part('sequence-ops', 'e_seq', 'C09', shards_quick=2, asan='quick', miri=True)],
     'rule': ("complete for N in 0..=8: append/pop_back/prepend/pop_front chain, split::<K> for every K <= N in owned, & and &mut forms, concat for every (N, M) with N+M <= 8, remove(i) and swap_remove(i) for every i in 0..=N+1 and usize::MAX; plus "
              "N in {15,16,17,31,32,33,63,64,100,255,256,1023,1024} with the position lattice {0,1,N/2,N-1,N}; element types of size 0 (tracked ZST, ()), 1 (u8), 8 (tracked, u64), 24 (tracked, [u8;24]) and 4 (tracked). Oracle: results and removed values "
              "equal Vec push/insert(0)/pop/remove(0)/split_at/extend/remove/swap_remove on the same identities; the ledger shows exactly-once ownership after every step; out-of-range remove/swap_remove raise the documented panic with every element "
